@@ -501,6 +501,18 @@ public:
             o["ln"] = lineOf(s->getBeginLoc());
             return o;
         }
+        if (auto* cs = dyn_cast<CXXCatchStmt>(s))
+        {
+            // the head of a handler: what it catches ("..." for catch-all), the name it binds
+            o["k"] = "catch";
+            QualType ct = cs->getCaughtType();
+            o["type"] = ct.isNull() ? std::string("...") : ct.getNonReferenceType().getUnqualifiedType().getAsString(pp);
+            if (auto* ed = cs->getExceptionDecl())
+                o["var"] = ed->getNameAsString();
+            o["ln"] = lineOf(s->getBeginLoc());
+            o["endln"] = lineOf(s->getEndLoc());
+            return o;
+        }
         o["k"] = "other";
         o["cls"] = s->getStmtClassName();
         o["ln"] = lineOf(s->getBeginLoc());
@@ -1332,6 +1344,8 @@ public:
             std::set<const Stmt*> covered;
             for (auto* u : stmts)
             {
+                if (isa<CXXCatchStmt>(u))
+                    continue; // the head of a handler block: its body's statements are elements of their own
                 std::set<const Stmt*> d;
                 collectSameBlock(u, d);
                 for (auto* x : d)
